@@ -29,11 +29,14 @@ import torch
 
 from ..autojac_obs import SweepRecorder
 from ..core import Ctx, MachineryError
-from ..graphs_torch import RealGraph, TBuilt, random_tprog
+from ..graphs_torch import DTYPES, RealGraph, TBuilt, random_tprog
 from ..par import pmap
 from ..tlc import run_tlc
 
 PID = "C12"
+DT_NAMES = ["f64", "f32", "c128", "c64"]
+DT_SHORT = {v: k for k, v in DTYPES.items()}
+QUICK_MOD, THOROUGH_MOD5 = 8, 64
 
 
 # ------------------------------------------------------------------------------------------------
@@ -67,7 +70,17 @@ def tdeps(prog: list[dict], T: set[int], stop: set[int]) -> set[int]:
     return {i for i in seen if prog[i - 1]["k"] == "leaf"}
 
 
-def _loss(t: torch.Tensor) -> torch.Tensor:
+def _real(t: torch.Tensor, i: int) -> torch.Tensor:
+    """A differentiated tensor is real-valued: a complex tensor i is presented through a real view of
+    it (real part, imaginary part or squared modulus, by index) - like non-scalar losses through
+    .sum(), this puts nodes ABOVE the tensor's grad_fn and changes none of the sets."""
+    if not t.is_complex():
+        return t
+    return (t.real, t.imag, t.real ** 2 + t.imag ** 2)[i % 3]
+
+
+def _loss(t: torch.Tensor, i: int = 0) -> torch.Tensor:
+    t = _real(t, i)
     return t if t.ndim == 0 else t.sum()
 
 
@@ -88,14 +101,14 @@ def _call(case: dict, b: TBuilt, variant: dict) -> tuple[str, str | None]:
     try:
         with rec:
             if case["fn"] == "backward":
-                ts = [b.node(i) for i in variant["order"]]
+                ts = [_real(b.node(i), i) for i in variant["order"]]
                 kw = {}
                 if variant["inputs"] is not None:
                     kw["inputs"] = [b.node(i) for i in variant["inputs"]]
                 backward(_present(ts, variant["how"]), Sum(), retain_graph=True, **kw)
             else:
                 feats = [b.node(i) for i in case["feats"]]
-                losses = [_loss(b.node(i)) for i in case["losses"]]
+                losses = [_loss(b.node(i), i) for i in case["losses"]]
                 kw = {}
                 if variant["shared"] is not None:
                     kw["shared_params"] = [b.node(i) for i in variant["shared"]]
@@ -112,8 +125,9 @@ def run_case(case: dict) -> dict:
     """Execute one (program, call) on the real library.  Pure function of `case` (replayable)."""
     torch.set_num_threads(1)
     prog, fn, seed, mode = case["prog"], case["fn"], case["seed"], case["mode"]
+    dts = case.get("dts")
     rng = random.Random(seed * 7919 + 13)
-    b0 = TBuilt(prog, seed, mode)
+    b0 = TBuilt(prog, seed, mode, dts)
     g = RealGraph(b0.t)
     gid = [g.id_of(t) for t in b0.t]                       # tensor index -> real node id
     leaf_of = {gid[i - 1]: i for i in b0.leaves() if gid[i - 1]}
@@ -145,20 +159,33 @@ def run_case(case: dict) -> dict:
     if any(0 in j["roots"] for j in jobs):
         out["machinery"] = "a differentiated tensor has no grad_fn"
         return out
+    # universe (LeafWalk!InUniverse): the parameters aggregated together have one element type
+    if dts and not overlap and len({dts[i - 1] for i in twin[0]}) > 1:
+        out["machinery"] = f"outside the universe: aggregated parameters {twin[0]} have element types {dts}"
+        return out
 
-    # ---- explicit call with the sets the statement names (only meaningful when they do not overlap)
-    ref = None
+    # ---- explicit call with the sets the statement names (only meaningful when they do not overlap);
+    # same presentation order of the tensors as the defaulted call it is compared with, so that the two
+    # perform the same arithmetic in the same order and exact equality can be demanded
+    refs: dict[str, dict] = {}
+
+    def explicit_ref(order: list[int] | None) -> dict | None:
+        key = json.dumps(order)
+        if key not in refs:
+            b1 = TBuilt(prog, seed, mode, dts)
+            if fn == "backward":
+                v = {"order": list(order), "how": "list", "inputs": twin[0]}
+            else:
+                v = {"how": "list", "shared": twin[0], "tasks": twin[1:]}
+            st, exc = _call(case, b1, v)
+            if out["explicit"] is None or st != "ok":
+                out["explicit"] = {"status": st, "exc": exc}
+            refs[key] = b1.grads() if st == "ok" else None
+        return refs[key]
+
     if not overlap:
-        b1 = TBuilt(prog, seed, mode)
-        if fn == "backward":
-            v = {"order": list(case["tensors"]), "how": "list", "inputs": twin[0]}
-        else:
-            v = {"how": "list", "shared": twin[0], "tasks": twin[1:]}
-        st, exc = _call(case, b1, v)
-        out["explicit"] = {"status": st, "exc": exc}
-        if st != "ok":
+        if explicit_ref(list(case["tensors"]) if fn == "backward" else None) is None:
             return out
-        ref = b1.grads()
 
     # ---- defaulted variants
     variants = []
@@ -177,10 +204,14 @@ def run_case(case: dict) -> dict:
             variants.append({"name": "both_omitted_bare_features", "how": "bare", "shared": None, "tasks": None})
     want = sorted(set().union(*[set(s) for s in twin]))
     for v in variants:
-        b = TBuilt(prog, seed, mode)
+        b = TBuilt(prog, seed, mode, dts)
         st, exc = _call(case, b, v)
         grads = b.grads()
         got = sorted(i for i, gr in grads.items() if gr is not None)
+        ref = None if overlap else explicit_ref(v["order"] if fn == "backward" else None)
+        if ref is None and not overlap:           # the explicit call failed for this order: no verdict (see judge)
+            out["episodes"] = []
+            return out
         same = (ref is not None and st == "ok" and grads == ref)
         if overlap:
             clause = "none" if st == "rejected" else "overlapping_default_sets_not_rejected"
@@ -198,6 +229,7 @@ def run_case(case: dict) -> dict:
             continue
         inv = {i: a for a, i in leaf_of.items()}
         out["episodes"].append({"fn": fn, "variant": v["name"], "next": g.next, "acc": g.acc, "jobs": jobs,
+                                "accdt": [DT_SHORT[g.variable(a).dtype] for a in g.acc],
                                 "twin": twin_ids, "ambig": ambig,
                                 "obs": {"status": st, "got": sorted(inv[i] for i in got if i in inv),
                                         "same": bool(same)}})
@@ -205,13 +237,15 @@ def run_case(case: dict) -> dict:
 
 
 def case_key(case: dict) -> str:
-    return json.dumps([case["prog"], case["fn"], case.get("tensors"), case.get("feats"), case.get("losses")],
+    return json.dumps([case["prog"], case["fn"], case.get("tensors"), case.get("feats"), case.get("losses")]
+                      + ([case["dts"]] if case.get("dts") else []),
                       sort_keys=True, separators=(",", ":"))
 
 
 def describe(case: dict) -> str:
+    dts = case.get("dts")
     prog = " ".join(f"{i}:{nd['k']}" + (f"({nd['a']}" + (f",{nd['b']}" if nd['k'] == 'bin' else "") + ")"
-                                        if nd["k"] not in ("leaf", "const") else "")
+                                        if nd["k"] not in ("leaf", "const") else f"<{dts[i - 1]}>" if dts else "")
                     for i, nd in enumerate(case["prog"], start=1))
     if case["fn"] == "backward":
         return f"backward(tensors={case['tensors']}) without inputs on [{prog}]"
@@ -290,6 +324,11 @@ def is_nontrivial(r: dict) -> bool:
     return nl >= 2 and (r["overlap"] or any(s != allrg for s in r["twin"]))
 
 
+def has_complex_param(r: dict, which: tuple = ("c64", "c128")) -> bool:
+    dts = r["case"].get("dts")
+    return bool(dts) and any(dts[i - 1] in which for s in r["twin"] for i in s)
+
+
 def random_cases(seed: int, n: int) -> list[dict]:
     rng = random.Random(seed * 104729 + 12)
     cases = []
@@ -308,6 +347,7 @@ def random_cases(seed: int, n: int) -> list[dict]:
             ts = rng.sample(diff, rng.randint(1, min(3, len(diff))))
             cases.append({"prog": prog, "fn": "backward", "tensors": sorted(ts), "seed": rng.randrange(10 ** 6),
                           "mode": mode})
+            agg = tdeps(prog, set(ts), set())
         else:
             feats = rng.sample(diff, rng.randint(1, min(2, len(diff))))
             # losses are preferably downstream tensors
@@ -315,13 +355,19 @@ def random_cases(seed: int, n: int) -> list[dict]:
             losses = rng.sample(pool, rng.randint(1, min(3, len(pool))))
             cases.append({"prog": prog, "fn": "mtl", "feats": sorted(feats), "losses": losses,
                           "seed": rng.randrange(10 ** 6), "mode": mode})
+            agg = tdeps(prog, set(feats), set())
+        # element types: one for the parameters that are aggregated together (LeafWalk!InUniverse),
+        # any for the other user tensors
+        common = rng.choice(DT_NAMES)
+        cases[-1]["dts"] = [(common if i in agg else rng.choice(DT_NAMES)) if nd["k"] in ("leaf", "const") else "-"
+                            for i, nd in enumerate(prog, start=1)]
     return cases
 
 
 def scenario_to_case(s: dict, seed: int, idx: int) -> dict:
     case = {"prog": s["prog"], "fn": s["fn"], "seed": (seed * 1000003 + idx) % (2 ** 31),
             "episodes": idx % 37 == seed % 37 or (bool(s["overlap"]) and idx % 11 == 0),
-            "mode": "scalar" if (idx + seed) % 2 == 0 else "mixed",
+            "mode": "scalar" if (idx + seed) % 2 == 0 else "mixed", "dts": s["dt"],
             "expected": {"inputs": s["inputs"], "shared": s["shared"], "tasks": s["tasks"],
                          "overlap": s["overlap"], "ambig": s["ambig"]}}
     if s["fn"] == "backward":
@@ -334,10 +380,11 @@ def scenario_to_case(s: dict, seed: int, idx: int) -> dict:
 def run(ctx: Ctx, replay: str | None) -> None:
     torch.manual_seed(ctx.seed)
     quick = ctx.tier == "quick"
-    ctx.rule = ("one case = (tensor program, call with omitted parameter arguments); TLC enumerates every program with "
-                "<= MaxN tensors (leaves first) and every backward / mtl_backward call on it; distinct by content; "
-                "non-trivial = >= 2 leaves and the default set differs from 'all leaves requiring grad' or the default "
-                "sets overlap")
+    ctx.rule = ("one case = (tensor program, call with omitted parameter arguments, element type of every user tensor "
+                "among float64 / float32 / complex128 / complex64); TLC enumerates every program with <= MaxN tensors "
+                "(leaves first), every backward / mtl_backward call on it and every element-type assignment inside the "
+                "universe; distinct by content; non-trivial = >= 2 leaves and the default set differs from 'all leaves "
+                "requiring grad' or the default sets overlap")
     ctx.assumptions += [
         "'computed from' is differentiable dependence: detach() and requires_grad=False operands cut it (the defaulted "
         "and the explicit call would otherwise differ by zero-filled .grad fields)",
@@ -346,6 +393,14 @@ def run(ctx: Ctx, replay: str | None) -> None:
         "multi-output op that produced a feature are ambiguous (tensor-level and node-level readings differ): they are "
         "detected exactly, counted and can only produce DRIFT",
         "'rejected' = the call raises before any differentiation sweep is performed",
+        "element types: the parameters whose Jacobians are aggregated together (inputs of backward, shared_params of "
+        "mtl_backward) have ONE element type - measured on the unchanged tree: torch refuses the .grad otherwise, in the "
+        "explicit call as well (LeafWalk!InUniverse); task parameters, constants and unreachable leaves have any; "
+        "float16 / bfloat16 are not generated",
+        "differentiated tensors are real-valued: a complex tensor of `tensors` / `losses` is presented through a real "
+        "view of it (.real, .imag or squared modulus), as non-scalar losses are through .sum(); features are passed as "
+        "they are (complex features included)",
+        "defaulted == explicit is exact equality of the .grad fields (type, shape, every real or complex element)",
         "model of the graph torch builds is cross-checked on every case by an independent traversal of the real graph",
     ]
     if replay:
@@ -366,9 +421,9 @@ def run(ctx: Ctx, replay: str | None) -> None:
                 .replace("SamplePick = 0", f"SamplePick = {ctx.seed % mod}"))
     live_cfg = open(spec / "MC_LeafWalk_live.cfg").read()
     if quick:
-        plan = [("MC_LeafWalk_quick.cfg", 2, 12)]
+        plan = [("MC_LeafWalk_quick.cfg", QUICK_MOD, 12)]
     else:
-        plan = [("MC_LeafWalk_quick.cfg", 1, 4), ("MC_LeafWalk_thorough.cfg", 16, 11)]
+        plan = [("MC_LeafWalk_quick.cfg", 1, 4), ("MC_LeafWalk_thorough.cfg", THOROUGH_MOD5, 11)]
         live_cfg = live_cfg.replace("MaxN = 3", "MaxN = 4")
     with ThreadPoolExecutor(3) as ex:
         futs = [ex.submit(run_tlc, "LeafWalk", cfg_text=cfg_of(n, m), workers=w, seed=ctx.seed, timeout=3000)
@@ -393,8 +448,10 @@ def run(ctx: Ctx, replay: str | None) -> None:
     ctx.exhaustive = not quick
     ctx.extra["scenarios_exported"] = len(scns)
     ctx.extra["model_exhaustive"] = True
-    ctx.extra["replayed"] = ("1/2 of the (program, call) pairs with <= 4 tensors (content hash, rotates with the seed)" if quick else
-                             "ALL (program, call) pairs with <= 4 tensors (the exhaustive family) + 1/16 of those with 5 tensors")
+    ctx.extra["replayed"] = (f"1/{QUICK_MOD} of the (program, call, element types) triples with <= 4 tensors (content hash, "
+                             f"rotates with the seed)" if quick else
+                             f"ALL (program, call, element types) triples with <= 4 tensors (the exhaustive family) + "
+                             f"1/{THOROUGH_MOD5} of those with 5 tensors")
 
     # ---- (b) S -> C
     scns.sort(key=lambda s: json.dumps(s, sort_keys=True))
@@ -413,6 +470,13 @@ def run(ctx: Ctx, replay: str | None) -> None:
                 sample_eps.append(dict(e))
                 sample_owner.append(r["case"])
     ctx.count("ambiguous_sibling_scenarios", n_amb)
+    n_cplx = sum(1 for r in results if not r["overlap"] and has_complex_param(r))
+    ctx.count("scenarios_with_a_complex_leaf_in_a_default_set", n_cplx)
+    ctx.count("scenarios_with_a_float32_leaf_in_a_default_set",
+              sum(1 for r in results if not r["overlap"] and has_complex_param(r, ("f32",))))
+    if n_cplx < len(results) // 20:
+        raise MachineryError(f"vacuous element-type coverage: only {n_cplx} of {len(results)} scenarios have a complex "
+                             f"leaf in a default set")
     ctx.count("overlap_scenarios", sum(1 for r in results if r["overlap"]))
     if ctx.counters.get("explicit_call_failed", 0) > len(results) // 50:
         raise MachineryError("more than 2% of the explicit calls failed: universe construction is broken")
@@ -440,6 +504,8 @@ def run(ctx: Ctx, replay: str | None) -> None:
     ctx.count("driver_cases", len(rres))
     ctx.count("driver_overlap_cases", sum(1 for r in rres if r["overlap"]))
     ctx.count("driver_ambiguous_cases", sum(1 for r in rres if r["ambig"]))
+    ctx.count("driver_cases_with_a_complex_leaf_in_a_default_set",
+              sum(1 for r in rres if not r["overlap"] and has_complex_param(r)))
     summ = validate_episodes(ctx, eps, owners)
     ctx.extra["trace_summary"] = summ
     if eps:
